@@ -63,6 +63,12 @@ IDEAS[7] = ("this time the choice is yours: read the code the property is anchor
 EXCLUDED[7] = (EXCLUDED[6] + ", no DEBUG-logging side effects, no generators consumed twice, no keyword inserted into a signature, no relative / "
                "scaled finite-difference steps, no tolerance defaults of np.isclose / np.allclose smuggled into a comparison, no compact-form "
                "identity tests, no hand-typed constants")
+IDEAS[8] = (IDEAS[7] + ". ADDITIONAL RULE FOR THIS ROUND: the earlier changes for this property cluster in a few files (see the file names in the "
+            "list below); your change B must be in a file (or at least a function) that NONE of the listed changes touched -- trace how the "
+            "property depends on less obvious code (constructors, properties, helpers in util.py / base classes / g2o_parameters.py / load.py / "
+            "vertex.py, __init__ exports, class attributes such as COMPACT_DIMENSIONALITY) and break it there")
+EXCLUDED[8] = (EXCLUDED[7] + ", no normalize() calls added inside other methods, no Hessian blocks assigned instead of accumulated, no errstate "
+               "wrappers, no change of which vertex fix_first_pose marks")
 os.makedirs(pdir, exist_ok=True)
 for p in props:
     pid = p['id']
@@ -70,7 +76,7 @@ for p in props:
     for d in sorted(glob.glob(os.path.join(here, 'seeded', pid + '-*'))):
         try:
             m = json.load(open(os.path.join(d, 'meta.json')))
-            earlier.append('  - ' + ' '.join(str(m.get('summary', '')).split())[:200])
+            earlier.append('  - [' + ', '.join(os.path.basename(f) for f in m.get('files', [])) + '] ' + ' '.join(str(m.get('summary', '')).split())[:170])
         except Exception:  # noqa
             pass
     wt, out = os.path.join(wroot, pid), os.path.join(oroot, pid)
